@@ -215,13 +215,14 @@ def competitions_of(repo: Repo, cls: str, method: str, floor: int):
 
 def check_model_premises(rep: Rep, repo: Repo, pre: str = "PREMISE-", node_fields=None, purity: bool = True) -> None:
     """Premises every model rule relies on (see rules_premise)."""
-    from .rules_premise import check_constants, check_node_defaults, check_transparent_properties
+    from .rules_premise import check_constants, check_mutable_defaults, check_node_defaults, check_transparent_properties
 
     n = check_transparent_properties(rep, repo, pre)
     if n < 70:
         raise AnalysisError(f"only {n} property accessors found (expected at least 70)")
     check_constants(rep, repo, pre)
     check_node_defaults(rep, repo, pre, fields=node_fields)
+    check_mutable_defaults(rep, repo, pre)
     if purity:
         check_metric_purity(rep, repo, pre)
 
